@@ -510,6 +510,8 @@ def decode(d, x, ctx, o=DEFAULT_OPTS):
                 kw[name] = None
             elif y is None and kind == "dflt" and space.values(e, ctx)[0] is None:
                 kw[name] = None
+            elif kind == "none":
+                kw[name] = D(("opt", e), y)     # the annotation is Optional[e]; typing flattens it into a union e
             else:
                 kw[name] = D(e, y)
         return info["cls"](**kw)
@@ -803,6 +805,8 @@ def has_union3_with_none(d):
         ms = _flatten_union(d)
         if len(ms) >= 3 and ("leaf", "none") in ms:
             return True
+    if d[0] == "dc":
+        return any(has_union3_with_none(("opt", e) if kind == "none" else e) for e, kind in d[2])
     return any(has_union3_with_none(c) for c in space.children(d))
 
 
